@@ -181,8 +181,8 @@ func runHeap(c *Ctx) {
 	}
 
 	// locate the pop and the popped item u
-	pops := core.Calls(dj, heapPop)
-	inits := core.Calls(dj, heapInit)
+	pops := p.RegionCalls(dj, heapPop)
+	inits := p.RegionCalls(dj, heapInit)
 	if len(pops) != 1 || len(inits) < 1 {
 		c.R.Undecided("HEAP-H2", "loop", name, "-", fmt.Sprintf("expected one heap.Pop and at least one heap.Init in the search, found %d/%d (different algorithm: undecidable by this rule)", len(pops), len(inits)))
 		return
@@ -203,13 +203,23 @@ func runHeap(c *Ctx) {
 	// visited set: a map updated with key u.<f> in the pop block
 	var visited ssa.Value
 	vField := ""
-	core.Instrs(dj, func(in ssa.Instruction) {
+	core.Instrs(pop.Parent(), func(in ssa.Instruction) {
 		if mu, ok := in.(*ssa.MapUpdate); ok && core.SetInsert(mu) && in.Block() == pop.Block() && core.InstrIndex(in) > core.InstrIndex(pop) {
 			if fr, ok := core.AsFieldLoad(mu.Key); ok && core.Path(fr.Base) == uPath {
 				visited, vField = mu.Map, fr.Field
 			}
 		}
 	})
+	visitedPath := ""
+	if visited != nil {
+		visitedPath = core.Path(visited)
+	}
+	popA := anchorIn(pop)
+	initA := anchorIn(inits[0])
+	if popA == nil || initA == nil {
+		c.R.Undecided("HEAP-H2", "loop", name, "-", "the queue is popped or initialised in a helper that is reached from several places (undecidable by this rule)")
+		return
+	}
 
 	// distance stores
 	type dstore struct {
@@ -236,7 +246,13 @@ func runHeap(c *Ctx) {
 				c.R.Undecided("HEAP-H2", "distance-store|"+core.FuncName(fn), name, p.InstrPos(st), "a distance store in a helper that is reached from several places (undecidable by this rule)")
 				return
 			}
-			if core.InstrDominates(a, inits[0]) || !core.CanFollow(inits[0], a) {
+			isInit := false
+			if a == initA && st.Parent() == inits[0].Parent() {
+				isInit = core.InstrDominates(st, inits[0]) || !core.CanFollow(inits[0], st) // same set-up helper as heap.Init: cannot run after it
+			} else if a != initA {
+				isInit = core.InstrDominates(a, initA) || !core.CanFollow(initA, a)
+			}
+			if isInit {
 				initStores = append(initStores, st) // set-up (possibly inside a set-up helper)
 				return
 			}
@@ -261,8 +277,8 @@ func runHeap(c *Ctx) {
 				fr, _ := core.AsFieldAddr(st.Addr)
 				if lk, ok := fr.Base.(*ssa.Lookup); ok {
 					if call, ok := p.IsHashcodeCall(lk.Index); ok {
-						if core.Strip(call.Common().Args[0]) == dj.Params[1] {
-							srcOK = st.Parent() == dj && core.InstrDominates(st, inits[0])
+						if p.Bind(up(core.Strip(call.Common().Args[0]))) == ssa.Value(dj.Params[1]) {
+							srcOK = st.Parent() == inits[0].Parent() && core.InstrDominates(st, inits[0])
 							srchash = core.Path(lk.Index)
 						}
 					}
@@ -273,7 +289,7 @@ func runHeap(c *Ctx) {
 	_ = srchash
 	c.R.Add("HEAP-H4", "init|infinity", name, p.Pos(dj.Pos()), infOK, "every item starts at a distance no smaller than MaxInt32", fmt.Sprintf("ok=%v", infOK))
 	c.R.Add("HEAP-H4", "init|source-zero", name, p.Pos(dj.Pos()), srcOK, "the source item (looked up by hashcode(src)) is set to 0 before heap.Init", fmt.Sprintf("ok=%v", srcOK))
-	c.R.Add("HEAP-H4", "init|heap-init-before-pop", name, p.InstrPos(inits[0]), core.InstrDominates(inits[0], pop), "heap.Init dominates the first heap.Pop", "")
+	c.R.Add("HEAP-H4", "init|heap-init-before-pop", name, p.InstrPos(inits[0]), initA != popA && core.InstrDominates(initA, popA) || (initA == popA && inits[0].Parent() == pop.Parent() && core.InstrDominates(inits[0], pop)), "heap.Init dominates the first heap.Pop", "")
 
 	if len(relax) == 0 {
 		c.R.Undecided("HEAP-H2", "relax", name, "-", "no relaxation store to the distance field found after heap.Init")
@@ -285,7 +301,7 @@ func runHeap(c *Ctx) {
 		vPath := core.Path(r.base)
 		// H2: repaired before the next pop — inside the function of the store, or, when the store sits in a helper that
 		// reports the update through a constant boolean result, on the branch of the caller that sees that result
-		repaired := c.heapRepaired(r.st, dj, pop, stopAtRepair(indexField, vPath), 0)
+		repaired := c.heapRepaired(r.st, dj, popA, stopAtRepair(indexField, vPath), 0)
 		prevOK := false
 		for _, in := range r.st.Block().Instrs {
 			if st, ok := in.(*ssa.Store); ok && st != r.st {
@@ -353,7 +369,7 @@ func runHeap(c *Ctx) {
 				}
 			}
 			if lk, in, ok := core.MemberLit(l); ok && !in && visited != nil {
-				if up(lk.X) == visited && core.Path(lk.Index) == weightKeyPath {
+				if (up(lk.X) == visited || core.Path(lk.X) == visitedPath) && core.Path(lk.Index) == weightKeyPath {
 					visOK = true
 				}
 			}
